@@ -57,7 +57,10 @@ def guardOp (t : T) (op : Op) : Bool :=
 def handle (f : List String) : String :=
   match f with
   | ["tl", pats, ig, opsS] =>
-    let patterns := (pats.splitOn ",").map (fun p => if p.startsWith "r:" then str (p.drop 2).toString else str p)
+    -- `r:` relative, `u:`/`v:` uncanonical spellings: filepath.Abs cleans them all to the same path
+    let clean (b : Bytes) : Bytes := Formats.intercalate [47] ((splitSlash b).filter (fun seg => seg ≠ [46] ∧ seg ≠ []))
+    let patterns := (pats.splitOn ",").map (fun p =>
+      if p.startsWith "r:" ∨ p.startsWith "u:" ∨ p.startsWith "v:" then clean (str (p.drop 2).toString) else str p)
     let arg := str (ig.drop 2).toString
     let contains (b sub : Bytes) : Bool := (List.range (b.length + 1)).any (fun i => (b.drop i).take sub.length == sub)
     let ignoreF : Bytes → Bool := fun b =>
